@@ -413,11 +413,13 @@ func init() {
 				run("nested-grid n<=3 rows/cols<=3 (dagre at root, gap slice 2)", seq(0, 3), []int{patEqual, patIncreasing, patAlternating}, rcS, []string{"box"}, slice2)
 			} else {
 				rcT := []int{0, 1, 2, 3, 4, 5, 7}
-				run("root-grid n<=30 rows/cols in {unset,1,2,3,4,5,7} full gap cube", seq(0, 30), pure, rcT, []string{"root"}, nil)
+				run("root-grid n<=10 rows/cols in {unset,1,2,3,4,5,7} full gap cube", seq(0, 10), pure, rcT, []string{"root"}, nil)
 				run("container-cell n<=4 (dagre, gap slice 8)", seq(1, 4), dagre, rcVals, []string{"root"}, slice8)
 				run("container-cell n=5..10 (dagre, gap slice 2)", seq(5, 10), dagre, rcVals, []string{"root"}, slice2)
-				run("nested-grid n<=6 (dagre at root, gap slice 8)", seq(0, 6), pure, rcVals, []string{"box"}, slice8)
-				run("nested-grid n=7..12 (dagre at root, gap slice 2)", seq(7, 12), pure, rcVals, []string{"box"}, slice2)
+				run("nested-grid n<=6 (dagre at root, gap slice 2)", seq(0, 6), pure, rcVals, []string{"box"}, slice2)
+				run("nested-grid n=7..12 equal/increasing/alternating (dagre at root, gap slice 2)", seq(7, 12), []int{patEqual, patIncreasing, patAlternating}, rcVals, []string{"box"}, slice2)
+				run("root-grid n=11..20 same rows/cols set, full gap cube", seq(11, 20), pure, rcT, []string{"root"}, nil)
+				run("root-grid n=21..30 same rows/cols set, full gap cube", seq(21, 30), pure, rcT, []string{"root"}, nil)
 			}
 			w.Count("dagre_calls", int64(dagreCalls))
 		},
